@@ -515,13 +515,19 @@ func reportCmd(args []string) error {
 				}
 				outS = "vars=" + strings.Join(got, ",")
 			case listing && !quiet && !js:
+				// one row per task: the rows are the lines whose first field is a task name of this harness (titles and
+				// column headers, whatever they are, are not rows)
 				var names []string
-				lines := strings.Split(stdout, "\n")
-				for i, l := range lines {
-					if i < 2 || strings.TrimSpace(l) == "" {
+				for _, l := range strings.Split(stdout, "\n") {
+					fl := strings.Fields(l)
+					if len(fl) == 0 {
 						continue
 					}
-					names = append(names, strings.Fields(l)[0])
+					for _, nm := range rpNames {
+						if fl[0] == nm {
+							names = append(names, nm)
+						}
+					}
 				}
 				outS = "list=" + strings.Join(names, ",")
 			case quiet && !js, listing:
